@@ -371,6 +371,10 @@ func (se *SpecEnv) index(base Value, idx *Term) Value {
 		if b.Obj == nil {
 			unsup("spec index of nil slice")
 		}
+		if b.Obj.Unmodelled {
+			// a slice whose contents are not modelled: the (arbitrary, but stable) value the code itself reads there
+			return se.fr.load(se.state(), &PtrV{Obj: b.Obj, Path: append(append([]PE(nil), b.Path...), PE{T: F.Add(b.Off, idx)})})
+		}
 		if _, soa := se.fr.v.getPath(se.fr.v.content(se.state(), b.Obj), b.Path).(*SoAV); soa {
 			// element of a struct slice: keep the address, so that field selectors resolve through the static type
 			return &PtrV{Obj: b.Obj, Path: append(append([]PE(nil), b.Path...), PE{T: F.Add(b.Off, idx)})}
